@@ -80,14 +80,16 @@ CLAIMED["C04"] = dict(
          "AT TIME control (any instant, hydraulic/rule grids, duration, priority) a step is solved at exactly the instant -- off both grids too -- with "
          "the commanded status, untouched before, kept after (induction through the presolve loop and over the steps); likewise a rule IF SYSTEM TIME "
          ">= thr acts, for every threshold and grid, at the first multiple of the rule step that is >= thr (thr > 0); and of two AT TIME controls on one "
-         "link at the same instant the higher priority wins in either registration order (through both stable sorts and the loop). The model also "
+         "link at the same instant the higher priority wins in either registration order (through both stable sorts and the loop); and a WINDOW -- "
+         "'on' AT TIME ts, 'off' AT TIME te on one target -- is on at a solved step exactly when ts <= time < te, with steps solved at exactly ts and te, "
+         "for every grid and also when both instants lie inside one hydraulic step (C04/Window.v: invariant over the whole run). The model also "
          "proves (by evaluation) what the CURRENT code does wrong: daily clock-time controls act at 2x the threshold, 'before' clock "
          "conditions are never true, rules are evaluated at t=0 -- recorded as known findings. Tie decided inside coqc: the (time, status) "
          "trace of the real simulator equals Sched.run for every generated configuration of controls and rules (exact).",
     ref="DESIGN.md section 5 C04, Appendix A",
     note="Trusted: Coq kernel (axiom-free); harness building the same configuration through the API and as a Gallina term. Modelled not "
          "verified: sim_time as a float holding integers; the hydraulic solve (irrelevant to time conditions; trivial network). Partial: the "
-         "closed whole-run proofs cover one AT TIME control, one TIME >= rule and two same-instant controls of different priority; for arbitrary "
+         "closed whole-run proofs cover one AT TIME control, an on/off window of two, one TIME >= rule and two same-instant controls of different priority; for arbitrary "
          "SETS of controls and rules the whole-run behaviour is established by exact trace equality on generated configurations plus the "
          "lemma-level proofs (no general functional specification of the loop is proved).",
     technique="Coq proof (arithmetic/case analysis on a transcribed scheduler, vm_compute witnesses) + exact trace correspondence")
@@ -217,7 +219,9 @@ CLAIMED["C08"] = dict(
          "cubic_spline): an active leak discharges exactly Cd*A*sqrt(2 g p) for p above the 0.1 mm band, slope*p (|.| <= 1e-11 |p|) for "
          "p <= 0, the band cubic is C0 and C1 with both neighbours and the matched slope is the true derivative of the square-root law "
          "(Coquelicot); an inactive leak reports 0; the start/end controls are AT TIME conditions, so they fire exactly in the step that "
-         "contains the instant, cut back to it (C04). Ties decided inside coqc: interval -- residual of the real leak row (junction and "
+         "contains the instant, cut back to it (C04), and over the WHOLE run the leak status is on exactly at the solved steps with start <= time < end, "
+         "steps being solved at exactly start and end -- any grids, both instants possibly inside one hydraulic step (C08_leak_window_exact, "
+         "an invariant through the presolve loop and over the steps). Ties decided inside coqc: interval -- residual of the real leak row (junction and "
          "tank) equals q - leak_rate(h - elev) over a head sweep, and reported leak_demand of real runs equals reported_leak with the "
          "activity decided by the MODEL window [start, end); vm_compute -- the leak-status timeline is on exactly on [start, end) and "
          "both instants are solved steps. remove_leak / reset / rerun cycles must report zero leak demand. The leak term in the mass "
@@ -225,8 +229,8 @@ CLAIMED["C08"] = dict(
          "(C08_leak_monotone, through the general cubic_spline monotonicity theorem) under a premise coqc proves for every generated leak.",
     ref="DESIGN.md section 5 C08",
     note="Trusted: Coq kernel; stdlib real axioms + classic (Coquelicot); coq-interval; translator chains.py; row dumper; tracing wrapper. "
-         "Modelled not verified: binary64 rounding (1e-9 relative). The whole-run window theorem is by exact timeline correspondence plus "
-         "the condition lemma, not a closed proof over the scheduler loop.",
+         "Modelled not verified: binary64 rounding (1e-9 relative). The whole-run window theorem is closed for a leak whose status no other control touches (the two controls add_leak "
+         "registers); it speaks about the runs that complete (steps ... = Some), their existence is witnessed by evaluation and by the timeline tie.",
     technique="Coq proof over a translator-regenerated model (field, Coquelicot) + interval-certified differential on real rows and reported leak demands")
 
 CLAIMED["C02"] = dict(
